@@ -16,6 +16,7 @@
   schedule in which `cons` is rare or absent.
 -/
 import RoProofs.Chan
+import RoProofs.ChanShape
 namespace Ro.C08
 open Ro Ro.Chan
 
@@ -84,6 +85,9 @@ theorem collect_through_detach (cap : Nat) (hot : Bool) (raw : List (Notif α)) 
     some (collectOf s.out) = collect raw :=
   fun he hp hc ht => collect_detach (inv_run _ raw sched) rfl he hp hc ht
 
+/-- the source of detachOn / ToChannel is written the way the model reads it (regenerated facts) -/
+theorem handoff_shapes : RoGen.ChanShape.table = Chan.expectedShapes := Chan.chan_shapes_ok
+
 -- non-vacuity: the bound is tight — capacity 1, a consumer that took one value and stalls:
 -- three notifications are ahead of it (one queued, one in each hand)
 example :
@@ -108,3 +112,4 @@ end Ro.C08
 #print axioms Ro.C08.handoff_bound_unsub
 #print axioms Ro.C08.handoff_close_once
 #print axioms Ro.C08.collect_through_detach
+#print axioms Ro.C08.handoff_shapes
